@@ -33,7 +33,7 @@ func (o *OCIDir) tagDelete(_ context.Context, r ref.Ref) error {
 	}
 	changed := false
 	for i := len(index.Manifests) - 1; i >= 0; i-- {
-		if t, ok := index.Manifests[i].Annotations[aOCIRefName]; ok && t == r.Tag {
+		if t, ok := index.Manifests[i].Annotations[aOCIRefName]; ok && indexTagMatch(t, r.Tag) {
 			// remove matching entry from index
 			index.Manifests = slices.Delete(index.Manifests, i, i+1)
 			changed = true
